@@ -52,7 +52,8 @@ var hosts = []string{"example.com", "EXAMPLE.com", "example.com:8080", "..", "."
 	"example.com:..", "@", "%00", "..%00", "example.com/..", "\\", "..;", "EXAMPLE.COM:0", "[..]", "nodex", "1.2.3.4",
 	strings.Repeat("h", 300), strings.Repeat("../", 40) + "canary.txt"}
 
-var encodings = []string{"", "gzip", "gzip", "br", "zstd", "gzip, br", "gzip, deflate, br, zstd", "identity", "zstd, gzip"}
+// (zstd is kept rare: every zstd response costs an 8 MiB window on both sides)
+var encodings = []string{"", "gzip", "gzip", "gzip", "br", "br", "gzip, br", "gzip, deflate, br, zstd", "identity", "gzip;q=0.5, br", "deflate", "zstd, gzip"}
 
 func pick(r *rand.Rand, l []string) string { return l[r.Intn(len(l))] }
 
